@@ -188,7 +188,8 @@ class Session(object):
         if self.done and not getattr(self, '_closed_logged', False):
             self._closed_logged = True
             junk = len(self.sock.out) - self.seen
-            self.ev.append({'t': 'closed', 'how': self.done, 'junk': junk, 'now': self.done_at if self.done_at is not None else int(CLOCK.now)})
+            self.ev.append({'t': 'closed', 'how': self.done, 'junk': junk, 'peer_eof': bool(self.sock.eof),
+                            'now': self.done_at if self.done_at is not None else int(CLOCK.now)})
 
     def send(self, data, **meta):
         e = {'t': 'cmd', 'now': int(CLOCK.now)}
